@@ -149,6 +149,50 @@ def parseOpts (j : Json) : M (List (Option Int)) := do
 def parseMask (j : Json) : M (List Bool) := do
   (← jArr j).toList.mapM (fun x => do pure ((← jInt x) != 0))
 
+partial def pjJ : PJ → Json
+  | .var i b => Json.mkObj ([("id", Json.str i)] ++ (match b with
+      | some b => [("bounds", Json.mkObj [("lower", ofInt b.lo), ("upper", ofInt b.hi)])]
+      | none => []))
+  | .node ty oid value sign hasProps props cond cons prop dflt =>
+      Json.mkObj (
+        (match ty with | some t => [("type", Json.str t)] | none => []) ++
+        (match oid with | some i => [("id", Json.str i)] | none => []) ++
+        (match value with | some v => [("value", ofInt v)] | none => []) ++
+        (match sign with | some v => [("sign", ofInt v)] | none => []) ++
+        (if hasProps then [("propositions", Json.arr (props.map pjJ).toArray)] else []) ++
+        (match cond with | some c => [("condition", pjJ c)] | none => []) ++
+        (match cons with | some c => [("consequence", pjJ c)] | none => []) ++
+        (match prop with | some c => [("proposition", pjJ c)] | none => []) ++
+        (if dflt.isEmpty then [] else [("default", Json.arr (dflt.map (fun x => pjJ (P.leafJ x.1 x.2))).toArray)]))
+
+partial def parsePJ (j : Json) : M PJ := do
+  let ty ← optStr j "type"
+  let isVar := match ty with
+    | some "Proposition" => true
+    | some "Variable" => true
+    | some _ => false
+    | none => (fldOpt j "propositions").isNone
+  if isVar then
+    let b ← match fldOpt j "bounds" with
+      | some b => do pure (some (⟨← fldInt b "lower", ← fldInt b "upper"⟩ : Bnd))
+      | none => pure none
+    pure (.var (← fldStr j "id") b)
+  else
+    let optI : String → M (Option Int) := fun k => match fldOpt j k with | some v => do pure (some (← jInt v)) | none => pure none
+    let optP : String → M (Option PJ) := fun k => match fldOpt j k with | some v => do pure (some (← parsePJ v)) | none => pure none
+    let props ← match fldOpt j "propositions" with
+      | some l => do pure (some (← (← jArr l).toList.mapM parsePJ))
+      | none => pure none
+    let dflt ← match fldOpt j "default" with
+      | some l => do (← jArr l).toList.mapM (fun x => do
+          let b ← match fldOpt x "bounds" with
+            | some b => do pure (⟨← fldInt b "lower", ← fldInt b "upper"⟩ : Bnd)
+            | none => pure ⟨0, 1⟩
+          pure (← fldStr x "id", b))
+      | none => pure []
+    pure (.node ty (← optStr j "id") (← optI "value") (← optI "sign") props.isSome (props.getD []) (← optP "condition")
+      (← optP "consequence") (← optP "proposition") dflt)
+
 def handle (j : Json) : M Json := do
   let op ← fldStr j "op"
   match op with
@@ -221,6 +265,22 @@ def handle (j : Json) : M Json := do
         | .circular => "CIRCULAR_DEPENDENCIES" | .ambivalent => "AMBIVALENT_VARIABLE_DEFINITIONS"
         | .nonUnique => "NON_UNIQUE_SUB_PROPOSITION_SET"
       pure (Json.mkObj [("errs", Json.arr ((P.errors t).map (fun e => Json.str (name e))).toArray)])
+  | "to_json" => do
+      let t ← parseTree (← fld j "t")
+      pure (Json.mkObj [("j", pjJ (P.toJson t))])
+  | "from_json" => do
+      let pj ← parsePJ (← fld j "j")
+      let cfg ← fldBool j "cfg"
+      let top ← fldBool j "top"
+      -- `StingyConfigurator.from_json` builds the configurator from the top-level dictionary itself
+      let ast : Option Ast := if top then
+          match pj with
+          | .node _ oid _ _ _ props _ _ _ _ => (PJ.toAstL true props).map (fun a => Ast.stingy a oid)
+          | .var .. => none
+        else PJ.toAst cfg pj
+      match ast with
+      | some a => pure (Json.mkObj [("t", treeJ a.build)])
+      | none => pure (Json.mkObj [("t", Json.null)])
   | "flatten" => do
       let t ← parseTree (← fld j "t")
       pure (Json.mkObj [("res", Json.arr ((P.flatIB t).map idBndJ).toArray)])
@@ -258,6 +318,19 @@ def handle (j : Json) : M Json := do
       match Config.addAll c rs with
       | some c' => pure (Json.mkObj [("t", treeJ c')])
       | none => pure (Json.mkObj [("t", Json.null)])
+  | "pack" => do
+      let mat ← (← fldArr j "mat").toList.mapM parseInts
+      let dpv ← parseInts (← fld j "dpv")
+      let vars ← (← fldArr j "vars").toList.mapM parseIdBnd
+      let idx ← (← fldArr j "index").toList.mapM jStr
+      let dt ← fldStr j "dtype"
+      let fieldJ : B64.Field → Json := fun f => match f with
+        | .mat m => Json.mkObj [("mat", Json.arr (m.map intsJ).toArray)]
+        | .ints l => Json.mkObj [("ints", intsJ l)]
+        | .vars l => Json.mkObj [("vars", Json.arr (l.map idBndJ).toArray)]
+        | .idx l => Json.mkObj [("idx", Json.arr (l.map Json.str).toArray)]
+        | .dt s => Json.mkObj [("dtype", Json.str s)]
+      pure (Json.mkObj [("payload", Json.arr ((B64.pack ⟨mat, dpv, vars, idx, dt⟩).map fieldJ).toArray)])
   | "oba" => do
       let xs ← parseInts (← fld j "xs")
       pure (Json.mkObj [("ws", intsJ (Prio.oba xs))])
